@@ -346,7 +346,7 @@ def apply_mutant(m, root):
         open(p, "w", encoding="utf-8").write(s)
 
 
-def run_mutant(m, runs=None):
+def run_mutant(m, runs=None, rate=False):
     scratch = tempfile.mkdtemp(prefix="verif-mutant-")
     try:
         shutil.copytree(os.path.join(runner.REPO_ROOT, "windpyutils"), os.path.join(scratch, "windpyutils"))
@@ -357,11 +357,21 @@ def run_mutant(m, runs=None):
                        VERIF_REPLAY_DIR=os.path.join(scratch, "replays"))
             if runs:
                 env["VERIF_RUNS"] = str(runs)
+            if rate:
+                # the whole batch is run (no stop at the first report, no minimisation of more than the first classes):
+                # how MANY runs of a quick batch report the planted defect tells a solid detection from a lucky one
+                env["VERIF_KEEP_GOING"] = "1"
+                env["VERIF_SEED"] = "3"
             t0 = time.monotonic()
             out = subprocess.run([os.path.join(runner.VERIF_DIR, "check"), prop, "quick"], env=env,
                                  capture_output=True, text=True, timeout=1200)
             viol = [l for l in out.stdout.split("\n") if l.startswith("violation ")]
-            rows.append((prop, out.returncode, time.monotonic() - t0, viol[0][:160] if viol else out.stdout[-300:]))
+            first = viol[0][:160] if viol else out.stdout[-300:]
+            if rate:
+                import re
+                mm = re.search(r"runs=(\d+) .*violation_runs=(\d+)", out.stdout)
+                first = (f"reporting runs: {mm.group(2)} of {mm.group(1)}  " if mm else "") + first[:100]
+            rows.append((prop, out.returncode, time.monotonic() - t0, first))
         return rows
     finally:
         shutil.rmtree(scratch, ignore_errors=True)
@@ -369,11 +379,13 @@ def run_mutant(m, runs=None):
 
 def cmd_mutants(argv):
     muts = load_mutants()
+    rate = "--rate" in argv
+    argv = [a for a in argv if a != "--rate"]
     if argv:
         muts = [m for m in muts if m["name"] in argv or any(a in m["detected_by"] for a in argv)]
     bad = 0
     with concurrent.futures.ThreadPoolExecutor(max_workers=3) as ex:
-        futs = {m["name"]: ex.submit(run_mutant, m) for m in muts}
+        futs = {m["name"]: ex.submit(run_mutant, m, None, rate) for m in muts}
         for m in muts:
             try:
                 rows = futs[m["name"]].result()
